@@ -33,6 +33,11 @@ type Spec struct {
 	Msgs  []Msg  `json:"msgs"`
 	Saves []bool `json:"saves"`           // WantSave before reading message i (cyclic)
 	Reuse bool   `json:"reuse,omitempty"` // read into one reused object per message type, as the patcher does
+	// Pops, when not empty, says before which messages (cyclic) the caller
+	// looks for a checkpoint; empty = before every message. The patcher pops
+	// only at certain points, so messages are read between the moment the
+	// source checkpoint arrives and the pop.
+	Pops []bool `json:"pops,omitempty"`
 }
 
 func body(m Msg, i int) []byte {
@@ -160,7 +165,11 @@ func check(s Spec) h.Result {
 		if len(s.Saves) > 0 && s.Saves[i%len(s.Saves)] {
 			r.WantSave()
 		}
-		if c := r.PopCheckpoint(); c != nil {
+		var c *wire.MessageReaderCheckpoint
+		if len(s.Pops) == 0 || s.Pops[i%len(s.Pops)] {
+			c = r.PopCheckpoint()
+		}
+		if c != nil {
 			b := new(bytes.Buffer)
 			if err := gob.NewEncoder(b).Encode(c); err != nil {
 				return h.Result{Fail: fmt.Sprintf("checkpoint cannot be gob-encoded: %v", err), Classes: cl}
@@ -234,6 +243,9 @@ func check(s Spec) h.Result {
 	}
 	if len(cks) > 0 {
 		cl = append(cl, "checkpoints:some")
+		if len(s.Pops) > 0 {
+			cl = append(cl, "checkpoints:popped-some-messages-later")
+		}
 	}
 	return h.Result{Classes: cl, NonTrivial: nt, Sub: 1 + len(cks)}
 }
@@ -305,6 +317,9 @@ var prop = h.Prop[Spec]{
 		s.Saves = rapid.SliceOfN(rapid.Bool(), 1, 8).Draw(t, "saves")
 		if rapid.Bool().Draw(t, "always-save") {
 			s.Saves = []bool{true}
+		}
+		if rapid.Bool().Draw(t, "pop-later") {
+			s.Pops = rapid.SliceOfN(rapid.Bool(), 2, 8).Draw(t, "pops")
 		}
 		return s
 	},
